@@ -404,6 +404,36 @@ func ruleFanout(c *Ctx, pl *pipeline, rule string) {
 			}
 		}
 	}
+	// the counted form: for i := 0; i < len(Channels); i++ (the length possibly taken once before the loop)
+	if hdr == nil && ia != nil {
+		if f, _ := loadedField(ia.X); f == pl.channelsF {
+			if phi, ok := ia.Index.(*ssa.Phi); ok && len(phi.Edges) == 2 {
+				zero, inc := false, false
+				for _, e := range phi.Edges {
+					if n, ok := constInt(e); ok && n == 0 {
+						zero = true
+					}
+					if add, ok := e.(*ssa.BinOp); ok && add.Op == token.ADD && add.X == ssa.Value(phi) {
+						if one, ok := constInt(add.Y); ok && one == 1 {
+							inc = true
+						}
+					}
+				}
+				if ifi, ok := lastInstr(phi.Block()).(*ssa.If); ok && zero && inc {
+					if cmp, ok := ifi.Cond.(*ssa.BinOp); ok && cmp.Op == token.LSS && cmp.X == ssa.Value(phi) {
+						if ln, ok := cmp.Y.(*ssa.Call); ok {
+							if b, ok := ln.Call.Value.(*ssa.Builtin); ok && b.Name() == "len" {
+								if f2, _ := loadedField(ln.Call.Args[0]); f2 == pl.channelsF {
+									hdr = phi.Block()
+									idx = phi
+								}
+							}
+						}
+					}
+				}
+			}
+		}
+	}
 	if hdr == nil {
 		c.Fail(rule, "fanout:index-order", sd.Pos(), "unproven", "the send is not to Channels[i] inside a `for i := range Channels` loop (ascending index order over the whole list)")
 		return
